@@ -100,6 +100,7 @@ func readKF(path string) ([]KF, error) {
 // Native replay
 
 type nativeCase struct {
+	Label   string            `json:"label,omitempty"`
 	Harness string            `json:"harness"`
 	Tier    int               `json:"tier"`
 	Inputs  map[string]uint64 `json:"inputs"`
@@ -438,7 +439,7 @@ func cmdCheck(args []string) int {
 		pd := pending{path: path, rf: rf, kf: hv.v.KF, natIdx: -1}
 		if hv.h.Native && !engineOnlyLabel(hv.v.Label) {
 			pd.natIdx = len(natCases)
-			natCases = append(natCases, nativeCase{Harness: hv.h.Name, Tier: tier, Inputs: hv.v.Inputs})
+			natCases = append(natCases, nativeCase{Label: hv.v.Label, Harness: hv.h.Name, Tier: tier, Inputs: hv.v.Inputs})
 		}
 		pend = append(pend, pd)
 	}
@@ -661,7 +662,7 @@ func cmdReplay(args []string) int {
 		return 2
 	}
 	if rf.Native {
-		res, out, err := nativeRun(p, []nativeCase{{Harness: rf.Harness, Tier: rf.Tier, Inputs: rf.Inputs}})
+		res, out, err := nativeRun(p, []nativeCase{{Label: rf.Label, Harness: rf.Harness, Tier: rf.Tier, Inputs: rf.Inputs}})
 		if err != nil {
 			fmt.Println("INCONCLUSIVE native replay failed:", err, clip(out, 1000))
 			return 2
